@@ -39,3 +39,35 @@ func VerifC17Stream() {
 	verifapi.Reach("c17.stream")
 	verifapi.Assert(err != nil, "c17.no-message-read-twice")
 }
+
+// VerifC17LongLived: a stream connection that has been up for a while: a
+// message is written and read, an arbitrary amount of further traffic flows,
+// then another ordinary message (at most 4 KiB) is written: it is read intact
+// like the first one. Whatever per-message limits the codec applies must not
+// add up over the life of the connection.
+func VerifC17LongLived() {
+	rwc := verifapi.NewStream()
+	w := IOCodec(rwc)
+	r := IOCodec(rwc)
+	write := func(i int) {
+		id, _ := json.Marshal(10 + i)
+		params, _ := json.Marshal([]interface{}{verifapi.Int64(fmt.Sprint("token", i))})
+		if err := w.WriteMessage(&Message{ID: id, Version: Version, Request: &Request{Method: fmt.Sprint("m", i), Params: params}}); err != nil {
+			verifapi.Unreachable("c17.write-error")
+		}
+	}
+	read := func(i int) {
+		got, err := r.ReadMessage()
+		verifapi.Assert(err == nil, "c17.every-written-message-is-read")
+		if err == nil {
+			want, _ := json.Marshal(10 + i)
+			verifapi.Assert(string(got.ID) == string(want) && got.Request != nil && got.Request.Method == fmt.Sprint("m", i), "c17.message-intact")
+		}
+	}
+	write(0)
+	read(0)
+	verifapi.StreamHistory(rwc)
+	write(1)
+	read(1)
+	verifapi.Reach("c17.longlived")
+}
